@@ -333,6 +333,13 @@ func Harness_C09_Library() {
 func Selftest_C09_Vectors() {
 	frags := []Fragment{{"AAAA", "AATG", "GCTT"}, {"CCCC", "GCTT", "AATG"}, {"GGGG", "AATG", "GGTA"}}
 	for _, p := range CircularLigate(frags) {
-		vOut(p.Sequence)
+		// which rotation of the ring is delivered first depends on the goroutine schedule: print the least one
+		least := p.Sequence
+		for k := 1; k < len(p.Sequence); k++ {
+			if r := p.Sequence[k:] + p.Sequence[:k]; r < least {
+				least = r
+			}
+		}
+		vOut(least)
 	}
 }
